@@ -382,6 +382,11 @@ fn has_operator_chars(text: &str) -> bool {
     text.contains(|c| c == '|' || c == '&' || c == '<' || c == '>')
 }
 
+fn has_brace_expression(text: &str) -> bool {
+    need_expand_brace(text) ||
+        libs::re::re_contains(text, r"\{-?[0-9]+\.\.-?[0-9]+(\.\.)?([0-9]+)?\}")
+}
+
 /// Text produced by an expansion is data. Operators are looked for in the
 /// token list after all expansions, so a result that brings in `|`, `&`,
 /// `<` or `>` which the word as written did not contain gets the
@@ -391,7 +396,11 @@ fn sep_after_expansion(tokens: &types::Tokens, idx: usize, before: &str, after: 
     // (a leading `NAME=value` word must keep its empty tag to be taken as
     // an assignment; its value is never looked at for operators)
     let leading_assignment = tokens[..=idx].iter().all(|x| x.0.is_empty() && tools::is_env(&x.1));
-    if sep.is_empty() && has_operator_chars(after) && !has_operator_chars(before)
+    // a brace list or range that the result brings in is data as well: the
+    // brace passes run after this one
+    let brings_operators = has_operator_chars(after) && !has_operator_chars(before);
+    let brings_braces = has_brace_expression(after) && !has_brace_expression(before);
+    if sep.is_empty() && (brings_operators || brings_braces)
         && !leading_assignment
     {
         "\"".to_string()
